@@ -93,9 +93,10 @@ Section Install.
       then match truthy (inst_after (fst kv)) with Some v => [(fst kv, v)] | None => [] end
       else [kv]) a.
 
-  Definition dict_eqb (a b : alist) : bool :=
-    Nat.eqb (length a) (length b) &&
+  (* dict equality; both association lists have unique keys, so it is mutual inclusion *)
+  Definition dict_sub (a b : alist) : bool :=
     forallb (fun kv => match alookup (fst kv) b with Some v' => str_eqb (snd kv) v' | None => false end) a.
+  Definition dict_eqb (a b : alist) : bool := dict_sub a b && dict_sub b a.
 
   (* l.297-310: the record after the run, and whether the config entry was updated *)
   Definition install_finish (inst_after : str -> option str) (rec0 rec1 : alist) (todo : plan_t) : alist * bool :=
